@@ -25,8 +25,8 @@ def run(ctx):
     ents = [entry(n) for n in NAMES]
     bad = streams.hist_corr(ctx, ents=ents, nhist=ctx.n(14, 150))
     rs.report(ctx, bad, "tie:corr", "history_vs_model")
-    from ..families.fad import FRECHET_FN
-    streams.fn_corr(ctx, ents=ents + [FRECHET_FN])
+    from ..families.fad import FRECHET_FN, FRECHET_FN_RD
+    streams.fn_corr(ctx, ents=ents + [FRECHET_FN, FRECHET_FN_RD])
     streams.presentation_variants(ctx, fn_ents=ents + [FRECHET_FN], hist_ents=ents, sizes=(1, 2, 3, 8, 40), hist_sizes=(1, 2, 5, 24))   # symbolic log sums: keep the trees small
     streams.wide_corr(ctx, ents)
     bad = rs.directed_histories(ctx, ents)
